@@ -299,6 +299,57 @@ def r6_nan_policy(rep, facts):
         rep.check(R, d.split(' as ')[0].lstrip('<'), ok, 'if v.is_nan() { v = v.copysign(1.0) }', f'`{d}` does not normalise the NaN sign like its twin', facts.loc(b))
 
 
+def r7_widening(rep, facts):
+    R = rep.rule('C11/R7', 'a narrow number is widened exactly before it is stored: every Serializer::serialize_f32 / i8..i32 / u8..u32 that forwards to serialize_f64 / '
+                 'serialize_i64 hands over the same number (for f32 the double with the same value, not one re-read from a decimal rendering).  Decided by evaluating the '
+                 'methods on boundary values with the wide method recorded', floor=10)
+    from .den import RecInterp, EvalPanic
+    import struct
+
+    class FloatRec(FloatInterp, RecInterp):
+        pass
+    f32 = lambda x: struct.unpack('f', struct.pack('f', x))[0]
+    fsamples = [f32(0.1), 1.5, -0.0, 0.0, float('inf'), float('-inf'), 3.4028234663852886e38, 1.401298464324817e-45, f32(7.038531e-26), -f32(16777217.0)]
+    bits = lambda x: struct.pack('>d', x)
+    n = 0
+    for imp in facts.impls:
+        if imp.get('trait') != 'serde::ser::Serializer':
+            continue
+        items = {it['name']: it['def'] for it in imp['items']}
+        for meth, wide, samples in [('serialize_f32', 'serialize_f64', fsamples)] + \
+                [(f'serialize_{t}', 'serialize_i64', vals) for t, vals in (('i8', (-128, -1, 0, 127)), ('i16', (-32768, 0, 32767)), ('i32', (-2 ** 31, 0, 2 ** 31 - 1)),
+                                                                         ('u8', (0, 255)), ('u16', (0, 65535)), ('u32', (0, 2 ** 32 - 1)))]:
+            d = items.get(meth)
+            if not d or not facts.has_body(d):
+                continue
+            b = facts.body(d)
+            # only methods that hand the number on to the wide method of the same serializer (plain forwarders to another serializer are followed there)
+            if not any(x.get('k') == 'mcall' and x.get('name') == wide and peel(x['recv']).get('res') == 'Local' for x in walk(b['body'])):
+                continue
+            pn = [p_['name'] for p_ in b['params'] if p_.get('k') == 'p_bind']
+            bad = []
+            try:
+                for v in samples:
+                    it = FloatRec(Evaluator(facts), {wide})
+                    try:
+                        it.val(b['body'], {pn[0]: ('self',), pn[1]: v, '@assign': {}})
+                    except EvalPanic as e:
+                        bad.append(f'{v!r}: panics ({e})')
+                        continue
+                    got = [a[0] for nm, a in it.calls if nm == wide and a]
+                    same = len(got) == 1 and type(got[0]) is type(v) and (bits(got[0]) == bits(v) if isinstance(v, float) else got[0] == v)
+                    if not same:
+                        bad.append(f'{v!r} is handed on as {got!r}')
+            except Unanalysable as e:
+                rep.bad(R, f'{imp.get("self_ty")}|{meth}', f'`{d}` does not hand its argument to {wide} by a plain widening (`v as _` / `.into()`): {e} — a detour (for f32: through the '
+                        f'decimal text) can change the value', facts.loc(b))
+                n += 1
+                continue
+            n += 1
+            rep.check(R, f'{imp.get("self_ty")}|{meth}', not bad, f'{len(samples)} values handed to {wide} unchanged', f'`{d}`: {"; ".join(bad[:3])}', facts.loc(b))
+    rep.check(R, 'count', n >= 9, f'{n} widening methods evaluated', f'only {n} widening serializer methods found')
+
+
 def rules(rep, facts):
     feats = set(facts.crates.get('toml_edit', {}).get('features', []))
     if 'toml_edit' in facts.crates and 'parse' in feats:
@@ -309,6 +360,8 @@ def rules(rep, facts):
     if 'toml_write' in facts.crates:
         r4_writers(rep, facts)
     r6_nan_policy(rep, facts)
+    if 'toml_edit' in facts.crates and 'serde' in feats:
+        r7_widening(rep, facts)
 
 
 def run(tier):
